@@ -5,6 +5,10 @@
 (* accounting / propagation rules that IOFault.tla establishes for the     *)
 (* model.  Many runs are concatenated:                                     *)
 (*                                                                         *)
+(*   (reset of a stand-alone reader -- cff.Read, cmap.Decode, ... on the   *)
+(*   stream its own writer produced: total = dataEnd = length of that      *)
+(*   stream, opt = positions at which the format allows the stream to end, *)
+(*   IOFault!SCutRejected)                                                 *)
 (*   reset   a new (font, operation, mode): total = length of the file the *)
 (*           operation produces without a fault, dataEnd = end of the last *)
 (*           byte of table data (reads; measured by the independent        *)
@@ -28,11 +32,12 @@ Trace == ndJsonDeserialize("trace.ndjson")
 
 VARIABLES l,
           total, dataEnd,     \* of the current group
+          opt,                \* ... positions at which the stream may legitimately end (stand-alone readers)
           dmode, dk,          \* detailed run in progress: mode and fault point
           dacc,               \* ... bytes accepted so far
           dhit,               \* ... some call/access failed
           dheal               \* ... a fail-once destination has had its failure
-vars == <<l, total, dataEnd, dmode, dk, dacc, dhit, dheal>>
+vars == <<l, total, dataEnd, opt, dmode, dk, dacc, dhit, dheal>>
 
 E == Trace[l]
 Is(ev) == l <= Len(Trace) /\ E.ev = ev
@@ -43,11 +48,11 @@ Fail(clause) == /\ PrintT(<<"FAILED", l, E.g, E.k, clause>>)
 Check(v) == IF v = "" THEN TRUE ELSE Fail(v)
 Min2(a, b) == IF a < b THEN a ELSE b
 
-Init == /\ l = 1 /\ total = 0 /\ dataEnd = 0 /\ dmode = "" /\ dk = 0 /\ dacc = 0 /\ dhit = FALSE /\ dheal = FALSE
+Init == /\ l = 1 /\ total = 0 /\ dataEnd = 0 /\ opt = {} /\ dmode = "" /\ dk = 0 /\ dacc = 0 /\ dhit = FALSE /\ dheal = FALSE
         /\ TLCSet(1, 0) /\ TLCSet(2, 0) /\ TLCSet(3, 0)
 
 Reset == /\ Is("reset")
-         /\ total' = E.total /\ dataEnd' = E.dataEnd
+         /\ total' = E.total /\ dataEnd' = E.dataEnd /\ opt' = {E.opt[i] : i \in 1..Len(E.opt)}
          /\ dmode' = "" /\ dk' = 0 /\ dacc' = 0 /\ dhit' = FALSE /\ dheal' = FALSE
          /\ Consume
 
@@ -70,11 +75,11 @@ WVerdict ==
     THEN "HARNESS-destination" ELSE ""
 
 W == /\ Is("w") /\ Check(WVerdict)
-     /\ UNCHANGED <<total, dataEnd, dmode, dk, dacc, dhit, dheal>> /\ Consume
+     /\ UNCHANGED <<total, dataEnd, opt, dmode, dk, dacc, dhit, dheal>> /\ Consume
 
 WB == /\ Is("wb")
       /\ dmode' = E.mode /\ dk' = E.k /\ dacc' = 0 /\ dhit' = FALSE /\ dheal' = FALSE
-      /\ UNCHANGED <<total, dataEnd>> /\ Consume
+      /\ UNCHANGED <<total, dataEnd, opt>> /\ Consume
 
 \* one call of the destination: IOFault!Accepts
 WCVerdict ==
@@ -92,7 +97,7 @@ WCVerdict ==
 WC == /\ Is("wc") /\ Check(WCVerdict)
       /\ dacc' = dacc + E.a /\ dhit' = (dhit \/ E.fail)
       /\ dheal' = (dheal \/ (E.fail /\ OnceMode(dmode)))
-      /\ UNCHANGED <<total, dataEnd, dmode, dk>> /\ Consume
+      /\ UNCHANGED <<total, dataEnd, opt, dmode, dk>> /\ Consume
 
 \* IOFault!ErrIffHit, WCountAccepted, WSuccessTotal at the return of the call
 WRVerdict ==
@@ -104,7 +109,7 @@ WRVerdict ==
   IF dhit # (dk < total \/ EagerMode(dmode)) THEN "HARNESS-destination" ELSE ""
 
 WR == /\ Is("wr") /\ Check(WRVerdict)
-      /\ UNCHANGED <<total, dataEnd, dmode, dk, dacc, dhit, dheal>> /\ Consume
+      /\ UNCHANGED <<total, dataEnd, opt, dmode, dk, dacc, dhit, dheal>> /\ Consume
 
 ---------------------------------------------------------------------------
 (* reads *)
@@ -112,15 +117,15 @@ WR == /\ Is("wr") /\ Check(WRVerdict)
 RVerdict ==
   IF E.panic THEN "read-panic" ELSE
   IF E.k >= total /\ E.err THEN "HARNESS-intact-read-failed" ELSE
-  IF E.mode \in {"trunc", "strunc", "sfail"} /\ E.k < dataEnd /\ ~E.err THEN "read-truncation-accepted" ELSE
+  IF E.mode \in {"trunc", "strunc", "sfail"} /\ E.k < dataEnd /\ E.k \notin opt /\ ~E.err THEN "read-truncation-accepted" ELSE
   IF E.mode = "failat" /\ E.nfail > 0 /\ ~E.err THEN "read-error-lost" ELSE ""
 
 R == /\ Is("r") /\ Check(RVerdict)
-     /\ UNCHANGED <<total, dataEnd, dmode, dk, dacc, dhit, dheal>> /\ Consume
+     /\ UNCHANGED <<total, dataEnd, opt, dmode, dk, dacc, dhit, dheal>> /\ Consume
 
 RB == /\ Is("rb")
       /\ dmode' = E.mode /\ dk' = E.k /\ dacc' = 0 /\ dhit' = FALSE /\ dheal' = FALSE
-      /\ UNCHANGED <<total, dataEnd>> /\ Consume
+      /\ UNCHANGED <<total, dataEnd, opt>> /\ Consume
 
 \* one ReadAt: IOFault!Fails for the failing source; the cut file fails (EOF) beyond its end
 RAVerdict ==
@@ -130,7 +135,7 @@ RAVerdict ==
 
 RA == /\ Is("ra") /\ Check(RAVerdict)
       /\ dhit' = (dhit \/ E.fail) /\ dacc' = dacc + 1
-      /\ UNCHANGED <<total, dataEnd, dmode, dk, dheal>> /\ Consume
+      /\ UNCHANGED <<total, dataEnd, opt, dmode, dk, dheal>> /\ Consume
 
 RRVerdict ==
   IF E.panic THEN "read-panic" ELSE
@@ -139,7 +144,7 @@ RRVerdict ==
   IF dmode = "trunc" /\ dk < dataEnd /\ ~E.err THEN "read-truncation-accepted" ELSE ""
 
 RR == /\ Is("rr") /\ Check(RRVerdict)
-      /\ UNCHANGED <<total, dataEnd, dmode, dk, dacc, dhit, dheal>> /\ Consume
+      /\ UNCHANGED <<total, dataEnd, opt, dmode, dk, dacc, dhit, dheal>> /\ Consume
 
 Next == Reset \/ W \/ WB \/ WC \/ WR \/ R \/ RB \/ RA \/ RR
 Spec == Init /\ [][Next]_vars
